@@ -410,9 +410,31 @@ class Evaluator:
         elif isinstance(tgt, ast.Starred):
             self.assign_target(tgt.value, val, fr, st)
 
+    def namedtuple_items(self, val):
+        """Fields, in order, of a call that constructs a repo-local typing.NamedTuple: the value *is* that tuple."""
+        if not (isinstance(val, tuple) and val and val[0] == "call" and val[1][0] == "name"):
+            return None
+        info = self.ctor_info(val)
+        if info is None:
+            return None
+        _, fields, cnode, _ = info
+        bases = []
+        for b in cnode.bases:
+            try:
+                bases.append(ast.unparse(b).rsplit(".", 1)[-1])
+            except Exception:
+                pass
+        if "NamedTuple" not in bases:
+            return None
+        out = [self.ctor_field(val, f) for f in fields]
+        return None if any(x is None for x in out) else out
+
     def known_items(self, val):
         if isinstance(val, tuple) and val and val[0] == "attr" and val[2] in self.known_len_fields:
             return [self.index(val, C(i)) for i in range(self.known_len_fields[val[2]])]
+        nt = self.namedtuple_items(val)
+        if nt is not None:
+            return nt
         if isinstance(val, tuple) and val and val[0] in ("tuple", "list"):
             if any(isinstance(x, tuple) and x and x[0] == "star" for x in val[1]):
                 return None
@@ -698,6 +720,10 @@ class Evaluator:
         h = base[0]
         if idx[0] == "const" and isinstance(idx[1], int) and not isinstance(idx[1], bool):
             i = idx[1]
+            if h == "call":
+                nt = self.namedtuple_items(base)
+                if nt is not None and -len(nt) <= i < len(nt):
+                    return nt[i]
             if h in ("tuple", "list") and not any(x[0] == "star" for x in base[1]):
                 if -len(base[1]) <= i < len(base[1]):
                     return base[1][i]
